@@ -374,7 +374,7 @@ func replayMain(t *testing.T) {
 							res.Failure = o.Fail
 							res.Known = classify(p.ID, c, o.Fail)
 						}
-						if !all {
+						if !all || strings.Contains(o.Fail, "hang(") {
 							break
 						}
 					}
